@@ -93,11 +93,13 @@ theorem C11_faithful_again (shelf : Content_) (ops : List POp) (k : PlKind) (h :
   subst hp
   cases k <;> simp [pview, hs, pstep]
 
-/-- **Dispatch never yields a writable bind of a file or directory shelf**: for the two kinds of shelf roots a
-    ware normally has, every route of `cache.place` gives copy, writable overlay or read-only bind. -/
-theorem C11_dispatch_safe (mode : Mode) (root : Kind) (hroot : root = .file ∨ root = .dir) (k : PlKind)
+/-- **Dispatch never yields a writable bind of the shelf**, whatever kind of node the shelf's root is: every route of
+    `cache.place` gives copy, writable overlay or read-only bind. (Until `fix:` a0ae968 this needed the hypothesis
+    `root = .file ∨ root = .dir`: a fifo / device / symlink root was bound writable — `C11_counter_rw_bind` on the
+    implementation.) -/
+theorem C11_dispatch_safe (mode : Mode) (root : Kind) (k : PlKind)
     (h : cachePlaceFor mode root = some k) : k ≠ .bindRw := by
-  rcases hroot with rfl | rfl <;> cases mode <;> simp [cachePlaceFor, overlayPlacerFor] at h <;> subst h <;> decide
+  cases root <;> cases mode <;> simp [cachePlaceFor, overlayPlacerFor] at h <;> subst h <;> decide
 
 /-- and any read-only request is a read-only bind -/
 theorem C11_readonly (root : Kind) : overlayPlacerFor root false = .bindRo := by simp [overlayPlacerFor]
@@ -107,14 +109,14 @@ theorem C11_counter_rw_bind : (prun ⟨7, []⟩ [.place .bindRw, .write 0 8]).sh
 
 /-- T-fact ties: the dispatch tables and mount flags in the code are the ones modelled. -/
 theorem C11_ties :
-    Generated.overlayDispatch = [(["fs.Type_File"], "CopyPlacer"), (["fs.Type_Dir"], "continue"),
-      (["fs.Type_Symlink", "fs.Type_NamedPipe", "fs.Type_Socket", "fs.Type_Device", "fs.Type_CharDevice"], "BindPlacer"),
+    Generated.overlayDispatch = [(["fs.Type_File"], "CopyPlacer:writable"), (["fs.Type_Dir"], "continue"),
+      (["fs.Type_Symlink", "fs.Type_NamedPipe", "fs.Type_Socket", "fs.Type_Device", "fs.Type_CharDevice"], "BindPlacer:false"),
       (["default"], "panic")] ∧
     Generated.overlayReadonlyShortcut = "return BindPlacer(srcPath, dstPath, writable)" ∧
     Generated.bindFlags = [":= syscall.MS_BIND | syscall.MS_REC", "|= syscall.MS_RDONLY | syscall.MS_REMOUNT"] ∧
     Generated.overlayOptions = "lowerdir=%s,upperdir=%s,workdir=%s" ∧
     Generated.cachePlaceSwitch = [(["rio.Placement_None"], "return nil"), (["rio.Placement_Direct"], "CopyPlacer"),
-      (["rio.Placement_Copy"], "CopyPlacer"), (["rio.Placement_Mount"], "GetMountPlacer"), (["default"], "panic")] := by
+      (["rio.Placement_Copy"], "CopyPlacer"), (["rio.Placement_Mount"], "GetMountPlacer"), (["default"], "return nil")] := by
   decide
 
 end Rio
